@@ -268,4 +268,41 @@ theorem C18_kernel_plot (lowx highx : Rat) (steps i : Nat) (h : i < steps) :
   kernel_unfold [k_plot_step, k_plot_v]
   kernel_close
 
+/-! ### `xy` data, regenerated from `_TableFormSection._parse_xy` -/
+
+theorem parse_xy_loop_eq (orig : List Rat) : ∀ (l x y : List Rat),
+    Atsim.Gen.Logic.parse_xy_loop1 true x orig y l = .ok (x ++ (deinterleave l).1, y ++ (deinterleave l).2)
+  | [], x, y => by simp [Atsim.Gen.Logic.parse_xy_loop1, deinterleave]
+  | [a], x, y => by simp [Atsim.Gen.Logic.parse_xy_loop1, deinterleave]
+  | a :: b :: rest, x, y => by
+    simp [Atsim.Gen.Logic.parse_xy_loop1, deinterleave, parse_xy_loop_eq orig rest]
+
+/-- **code tie**: `_parse_xy` rejects an odd number of values and otherwise splits the values pairwise exactly as the model's `deinterleave` does -
+    wherever the line breaks of the entry were -/
+theorem C18_code_parse_xy (xy : List Rat) :
+    Atsim.Gen.Logic.parse_xy xy = (if xy.length % 2 = 0 then .ok (deinterleave xy) else .error Atsim.Gen.Logic.TableErr.oddCount) := by
+  unfold Atsim.Gen.Logic.parse_xy
+  by_cases h : xy.length % 2 = 0
+  · have h' : ((xy.length : Int) % 2) = 0 := by omega
+    simp [h, h', parse_xy_loop_eq]
+  · have h' : ¬ (((xy.length : Int) % 2) = 0) := by omega
+    simp [h, h']
+
+/-- hence `x`/`y` lists and `xy` pairs are the same data for the code as written: interleaving two lists of equal length and parsing them as `xy` gives them back -/
+theorem C18_code_xy_equiv (xs ys : List Rat) (h : xs.length = ys.length) :
+    Atsim.Gen.Logic.parse_xy (interleave xs ys) = .ok (xs, ys) := by
+  have hlen : ∀ (xs ys : List Rat), xs.length = ys.length → (interleave xs ys).length % 2 = 0 := by
+    intro xs
+    induction xs with
+    | nil => intro ys _; cases ys <;> simp [interleave]
+    | cons a xs ih =>
+      intro ys h
+      cases ys with
+      | nil => simp at h
+      | cons b ys =>
+        have := ih ys (by simpa using h)
+        simp only [interleave, List.length_cons]
+        omega
+  rw [C18_code_parse_xy, if_pos (hlen xs ys h), C18_xy_equiv xs ys h]
+
 end Atsim.C18
